@@ -155,7 +155,7 @@ class _ExpressionConverter:
             ) = stack.pop()
 
             if isinstance(current_formula, NumericValue):
-                formula_value = Fraction(current_formula.value)
+                formula_value = Fraction(str(current_formula.value))
                 if formula_value.denominator == 1:
                     result_stack.append(em.Int(formula_value.numerator))
                 else:
